@@ -2,6 +2,7 @@
 CONSTANTS
   Snaps <- MCSnaps2
   MaxChanges = 3
+  ACfgs <- MCACfgs
   WithPartial = TRUE
 INIT Init
 NEXT Next
